@@ -527,3 +527,102 @@ def replay_sl(rec):
             rows.append(row)
         out.append(rows)
     return {"kind": "SL", "id": rec["id"], "a": a, "b": b, "p": p, "ks": rec["ks"], "r": out, "nx": 2, "jv": 3}
+
+
+# ------------------------------------------------------------------------------- call histories (ArcCalls.tla)
+CALL_POOL = [[[1, 0, 0], [0, 1, 0]], [[0, 1, 0], [-1, 0, 0]], [[1, 0, 1], [0, 1, 1]]]
+CALL_ARGS = {
+    "pw": [[1, 1, 0], [1, 1, 2]],                                   # interior of pool[0] (beyond pool[1]); interior of pool[2]
+    "ex": [[0, 0, 0], [0, 0, 0]],                                   # unused
+    "gi": [[[1, 1, 1], [1, 1, -1]], [[1, 1, 1], [1, 1, 3]]],        # crosses pool[0] only; crosses pool[2] only
+    "cl": [[1, 9, 16], [1, 1, 4]],                                  # z = 3/4 (pool[2] bulges over it: 2), z = 1/2
+}
+CALL_PROBE = [[1, 1, 0], [-1, 1, 0], [1, 1, 2]]
+CALL_FORMS = ["buffer", "alias", "copy", "list", "strided", "fortran", "f32"]
+CALL_FORMS_BASIC = ["buffer", "alias", "copy", "list"]
+CALL_NBUF = 2
+
+
+def _tla(v):
+    return "<<%s>>" % ", ".join(_tla(x) if isinstance(x, list) else str(x) for x in v)
+
+
+def calls_module():
+    """TLC configuration files cannot spell tuples: the pool and the probe points live in a generated wrapper module."""
+    return ("---- MODULE ArcCallsMC ----\nEXTENDS ArcCalls\nPoolC == %s\nProbeC == {%s}\n====\n"
+            % (_tla(CALL_POOL), ", ".join(_tla(p) for p in CALL_PROBE)))
+
+
+def calls_cfg(memo, max_steps, forms, emit):
+    return (
+        "SPECIFICATION Spec\nCONSTANTS\n Pool <- PoolC\n Probe <- ProbeC\n NArg = 2\n NBuf = %d\n MaxSteps = %d\n Forms = {%s}\n Memo = \"%s\"\n Emit = %s\n"
+        % (CALL_NBUF, max_steps, ", ".join('"%s"' % f for f in forms), memo, "TRUE" if emit else "FALSE")
+        + "INVARIANT TypeOK\nINVARIANT ValueSemantics\nINVARIANT PoolDistinguishes\nINVARIANT EmitHist\nCHECK_DEADLOCK FALSE\n"
+    )
+
+
+def as_form(buf, alias, form):
+    """The buffer's current contents in the requested shape of argument (fresh objects except buffer / alias)."""
+    import numpy as np
+
+    if form == "buffer":
+        return buf
+    if form == "alias":
+        return alias
+    if form == "copy":
+        return buf.copy()
+    if form == "list":
+        return [buf[0].copy(), buf[1].copy()]
+    if form == "strided":
+        wide = np.zeros((2, 6))
+        wide[:, ::2] = buf
+        return wide[:, ::2]
+    if form == "fortran":
+        return np.asfortranarray(buf)
+    if form == "f32":
+        return buf.astype(np.float32).astype(np.float64)
+    raise ValueError(form)
+
+
+def replay_history(rec):
+    """rec: id, fn, steps.  Real caller-owned buffers, really overwritten in place, really reused."""
+    import numpy as np
+
+    f = fns()
+    if "cl" not in f:
+        from uxarray.grid.intersections import gca_const_lat_intersection
+
+        f["cl"] = gca_const_lat_intersection
+    fn, args = rec["fn"], CALL_ARGS[rec["fn"]]
+    bufs = [np.empty((2, 3)) for _ in range(CALL_NBUF)]
+    for b in bufs:
+        b[0], b[1] = unit(CALL_POOL[0][0]), unit(CALL_POOL[0][1])
+    alias = [b[:] for b in bufs]
+    cand = [(10 * (e + 1) + w, val) for e, (a, b) in enumerate(CALL_POOL) for w, val in rec["cand"][e]] if fn == "ex" else []
+    out = []
+    for s in rec["steps"]:
+        if s[0] == "O":
+            k, e = s[1] - 1, s[2] - 1
+            bufs[k][0] = unit(CALL_POOL[e][0])      # in place
+            bufs[k][1] = unit(CALL_POOL[e][1])
+            out.append([0])
+            continue
+        k, form, j = s[1] - 1, s[2], s[3] - 1
+        gca = as_form(bufs[k], alias[k], form)
+        try:
+            if fn == "pw":
+                out.append([1 if bool(f["pw"](unit(args[j]), gca)) else 0])
+            elif fn == "ex":
+                vmax, vmin = float(f["ex"](gca, "max")), float(f["ex"](gca, "min"))
+                out.append([[c for c, val in cand if abs(vmax - val) <= LAT_TOL], [c for c, val in cand if abs(vmin - val) <= LAT_TOL], 0])
+            elif fn == "gi":
+                res = np.asarray(f["gi"](gca, np.array([unit(args[j][0]), unit(args[j][1])])), dtype=float)
+                out.append([0 if res.size == 0 else int(res.reshape(-1, 3).shape[0])])
+            else:
+                s_, num, den = args[j]
+                res = np.asarray(f["cl"](gca, s_ * math.sqrt(num / den)), dtype=float)
+                out.append([0 if res.size == 0 else int(res.reshape(-1, 3).shape[0])])
+        except Exception:  # noqa
+            out.append([2] if fn == "pw" else [[], [], 1] if fn == "ex" else [-1])
+    return {"id": rec["id"], "fn": fn, "nbuf": CALL_NBUF, "pool": CALL_POOL, "args": args,
+            "steps": [list(s) + [0] * (4 - len(s)) for s in rec["steps"]], "r": out}
